@@ -3,8 +3,12 @@ from ..explore import bfs
 
 LEVEL = 'model_checking'
 
-QUICK = [('U2', None), ('U3', None), ('U3dq', None), ('U4l', 3)]
-THOROUGH = [('U2', None), ('U3', None), ('U3d', None), ('U4l', None), ('U3c', None), ('U4', None), ('U4d', None)]
+# (universe, max depth | None = closure, link bound | None)
+QUICK = [('U2', None, None), ('U3', None, None), ('U3dq', None, None), ('U4l', 3, None), ('U4e', None, None)]
+THOROUGH = [('U2', None, None), ('U3', None, None), ('U3d', None, None), ('U4l', None, None), ('U3c', None, None),
+            ('U4e', None, None), ('U4s', None, None), ('U4', None, 1), ('U4d', None, 1)]
+
+PHASE2 = {('U4e', 'quick'): 'attach', ('U4e', 'thorough'): 'full', ('U4s', 'thorough'): 'full'}
 
 RULES = {
     'C01': 'every transition of the BFS closure; non-trivial = distinct (pre-state, op) pairs that change the graph or are rejected',
@@ -20,8 +24,9 @@ def run(rep, prop):
     per = []
     states = trans = 0
     exhaustive = True
-    for uname, maxd in plan:
-        r = bfs.explore(uname, rep.acc, max_depth=maxd)
+    for uname, maxd, maxl in plan:
+        r = bfs.explore(uname, rep.acc, max_depth=maxd, max_links=maxl, phase2=PHASE2.get((uname, rep.tier)), state_cap=400000)
+        r['link_bound'] = maxl
         per.append({k: v for k, v in r.items() if k not in ('state_list', 'U')})
         states += r['states']
         trans += r['transitions']
